@@ -32,7 +32,7 @@ Theorem compact_round_trip :
   forall allow protected ek iv ct tag rawkey alg enc zip k cek msg payload,
   (forall d, json_loads (json_dumps d) = Some (PDict d)) ->
   header_alg allow protected = EOk alg -> header_enc allow protected = EOk enc -> header_zip allow protected = EOk zip ->
-  prepare_key alg (match rawkey with PNone => match dict_get "jwk" protected with Some j => j | None => PNone end | _ => rawkey end) = Some k ->
+  prepare_key alg (effective_key protected rawkey) = Some k ->
   unwrap alg enc ek protected k = Some cek ->
   decrypt enc cek iv (b64url_encode (json_dumps protected)) ct tag = Some msg ->
   finish zip msg = EOk payload ->
@@ -52,7 +52,7 @@ Theorem compact_decrypted_means_authenticated :
     urlsafe_b64decode eks = Some ek /\ urlsafe_b64decode ivs = Some iv /\ urlsafe_b64decode cts = Some ct /\
     urlsafe_b64decode tags = Some tag /\
     header_alg allow h = EOk alg /\ header_enc allow h = EOk enc /\ header_zip allow h = EOk zip /\
-    prepare_key alg (match rawkey with PNone => match dict_get "jwk" h with Some j => j | None => PNone end | _ => rawkey end) = Some k /\
+    prepare_key alg (effective_key h rawkey) = Some k /\
     unwrap alg enc ek h k = Some cek /\
     decrypt enc cek iv ps ct tag = Some msg /\
     finish zip msg = EOk payload.
